@@ -112,6 +112,34 @@ pub struct StunDecoded {
     /// Refresh responses). Honored per RFC 5766 §2.2 — the server may grant a
     /// lifetime shorter than the one requested by the client.
     pub lifetime: Option<u32>,
+    /// Value of the USERNAME attribute (0x0006), if present.
+    pub username: Option<String>,
+    /// Byte offset of the MESSAGE-INTEGRITY attribute header inside the decoded
+    /// packet, if present (see [`StunDecoded::check_integrity`]).
+    pub integrity_offset: Option<usize>,
+}
+
+impl StunDecoded {
+    /// Verify the short-term-credential MESSAGE-INTEGRITY (RFC 5389 §15.4) of
+    /// `packet` (the exact bytes this message was decoded from) under `key`.
+    /// Returns false when the attribute is missing, truncated or does not match.
+    pub fn check_integrity(&self, packet: &[u8], key: &[u8]) -> bool {
+        let Some(off) = self.integrity_offset else {
+            return false;
+        };
+        if off < 20 || off + 24 > packet.len() {
+            return false;
+        }
+        // The HMAC covers the message up to the attribute, with the header length
+        // field set as if MESSAGE-INTEGRITY were the last attribute.
+        let mut covered = packet[..off].to_vec();
+        write_length_field(&mut covered, off - 20 + 24);
+        let Ok(mut mac) = <HmacSha1 as hmac::digest::KeyInit>::new_from_slice(key) else {
+            return false;
+        };
+        mac.update(&covered);
+        mac.verify_slice(&packet[off + 4..off + 24]).is_ok()
+    }
 }
 
 fn encode_stun_message(
@@ -328,6 +356,8 @@ fn decode_stun_message(bytes: &[u8]) -> Result<StunDecoded> {
     let mut data = None;
     let mut use_candidate = false;
     let mut lifetime = None;
+    let mut username = None;
+    let mut integrity_offset = None;
     while offset + 4 <= bytes.len() {
         let typ = u16::from_be_bytes([bytes[offset], bytes[offset + 1]]);
         let len = u16::from_be_bytes([bytes[offset + 2], bytes[offset + 3]]) as usize;
@@ -336,7 +366,21 @@ fn decode_stun_message(bytes: &[u8]) -> Result<StunDecoded> {
             break;
         }
         let value = &bytes[offset..offset + len];
+        // RFC 5389 §15.4: attributes after MESSAGE-INTEGRITY (other than
+        // FINGERPRINT) are not covered by it and must be ignored.
+        if integrity_offset.is_some() {
+            offset += len + (4 - (len % 4)) % 4;
+            continue;
+        }
         match typ {
+            0x0006 => {
+                if let Ok(text) = std::str::from_utf8(value) {
+                    username = Some(text.to_string());
+                }
+            }
+            0x0008 if len == 20 => {
+                integrity_offset = Some(offset - 4);
+            }
             0x0020 => {
                 if let Some(addr) = parse_xor_address(value, &transaction_id)? {
                     xor_mapped_address = Some(addr);
@@ -398,6 +442,8 @@ fn decode_stun_message(bytes: &[u8]) -> Result<StunDecoded> {
         data,
         use_candidate,
         lifetime,
+        username,
+        integrity_offset,
     })
 }
 
